@@ -21,6 +21,7 @@ package transport
 import (
 	"context"
 	"fmt"
+	"google.golang.org/grpc/internal/verifhook"
 	"io"
 	"math"
 	"net"
@@ -926,6 +927,7 @@ func (t *http2Client) NewStream(ctx context.Context, callHdr *CallHdr, handler s
 			return nil, &NewStreamError{Err: hdrListSizeErr}
 		}
 		firstTry = false
+		verifhook.Point("h2c.newStream.beforeWait")
 		select {
 		case <-ch:
 		case <-ctx.Done():
